@@ -50,7 +50,11 @@ def small_itiers(G=8, maxn=3, rng=None, span_extra=False):
 
 def random_itier(rng, maxn=10, tmax=60, labels=LABELS, name="tier", tight=None):
     """Random wf interval tier: sorted, disjoint (touching with prob.), inside span."""
-    n = rng.randint(0, maxn)
+    if tmax >= 30 and rng.random() < 0.04:
+        maxn = max(maxn, 12)         # now and then a tier long enough for two-digit indices
+        n = rng.randint(10, maxn)
+    else:
+        n = rng.randint(0, maxn)
     cuts = sorted(rng.sample(range(0, tmax + 1), min(2 * n, tmax + 1)))
     ents = []
     i = 0
@@ -71,7 +75,11 @@ def random_itier(rng, maxn=10, tmax=60, labels=LABELS, name="tier", tight=None):
 
 
 def random_ptier(rng, maxn=10, tmax=60, labels=LABELS, name="pts", distinct=True):
-    n = rng.randint(0, maxn)
+    if tmax >= 30 and rng.random() < 0.04:
+        maxn = max(maxn, 12)
+        n = rng.randint(10, maxn)
+    else:
+        n = rng.randint(0, maxn)
     if distinct:
         times = sorted(rng.sample(range(0, tmax + 1), min(n, tmax + 1)))
     else:
